@@ -305,6 +305,32 @@ struct StrSeq : HarnessBase {
 	void canon(std::string &out) { world_canon(out); GraphCanon gc; for(int a = 0; a < 2; a++) if(alive[a]) gc.root(store[a], sizeof(Str)); gc.emit(out); out += ref[0]; out.push_back('|'); out += ref[1]; }
 };
 
+// characters with the high bit set (char is signed here): hashing and comparison of string vs view vs copy
+static InstResult run_highbit(const std::vector<CrashInfo> &cr) {
+	Enumerator E("strings-high-bit", "C15", cr);
+	GuardBuf g1, g2;
+	std::vector<std::string> all;
+	for_all_strings(std::string("a\x80\xff\0", 4), 3, [&](const std::string &s) { all.push_back(s); });
+	for(auto &s : all) for(auto &t : all) E.eval(printable(s) + " x " + printable(t), "string.high-bit", [&] {
+		world_reset();
+		{
+			const char *rs = g1.place(s.data(), s.size()), *rt = g2.place(t.data(), t.size());
+			Str a(rs, s.size(), TrackAlloc{}), b(rt, t.size(), TrackAlloc{}), c(a);
+			View va(rs, s.size()), vb(rt, t.size());
+			unsigned h1 = frg::hash<Str>{}(a), h2 = frg::hash<View>{}(va), h3 = frg::hash<Str>{}(c), h4 = frg::hash<View>{}(View(a));
+			EXPECT(h1 == h2 && h1 == h3 && h1 == h4, "C15", "string:hash-high-bit", "hash of the same character sequence differs between string, view and copy for " + printable(s));
+			bool eq = s == t;
+			EXPECT((a == b) == eq && (va == vb) == eq && (a.compare(b) == 0) == eq, "C15", "string:equality-high-bit", "equality differs from the reference");
+			EXPECT(sgn(a.compare(b)) == -sgn(b.compare(a)), "C15", "string:compare:antisymmetry", "compare is not antisymmetric");
+			if(eq) EXPECT(frg::hash<Str>{}(b) == h1, "C15", "string:hash-equal", "equal strings hash differently");
+			Str p = a + vb; check_owned(p, s + t, "+view(high-bit)");
+			for(unsigned char ch : {0x80, 0xff}) { size_t r = va.find_first((char)ch), w = s.find((char)ch); EXPECT(r == (w == std::string::npos ? size_t(-1) : w), "C15", "view:find_first-high-bit", "find_first of a high-bit character differs"); }
+		}
+		raise_pending(); world_check_empty("string.high-bit");
+	});
+	return E.finish();
+}
+
 static std::vector<Instance> instances(const std::string &tier) {
 	bool th = tier == "thorough";
 	size_t maxlen = th ? 5 : 4;
@@ -320,6 +346,7 @@ static std::vector<Instance> instances(const std::string &tier) {
 	add("strings-compare-triples", [=](const std::vector<CrashInfo> &cr) { return run_triples(cr, th ? 4 : 3); });
 	add("strings-to_number", [=](const std::vector<CrashInfo> &cr) { return run_tonumber(cr, th ? 6 : 5); });
 	add("strings-char32", [=](const std::vector<CrashInfo> &cr) { return run_wide(cr); });
+	add("strings-high-bit", [=](const std::vector<CrashInfo> &cr) { return run_highbit(cr); });
 	BfsOptions o; o.max_depth = th ? 5 : 4;
 	v.push_back(bfs_instance<StrSeq>("strings-sequences", o, th ? 6 : 4));
 	return v;
